@@ -48,7 +48,7 @@ let () =
          List.iter bump kinds
        done
    | "assign" ->
-       let c = { Views.maxrank = geti "--maxrank" 3; maxops = geti "--maxops" 4; rebased = false; maxd = 4 } in
+       let c = { Views.maxrank = geti "--maxrank" 3; maxops = geti "--maxops" 4; rebased = has "--rebased"; maxd = 4 } in
        for k = 1 to count do
          let id = Printf.sprintf "%s%d" (get "--prefix" "a" args) k in
          let rec go tries =
